@@ -121,7 +121,16 @@ def run_shard(args):
             if s["place"] == "module" and s["old"] is None:
                 s["place"] = "loop"
         src, order = program.build(sites, style="rec", tests=rng.randint(1, 3), header="from inline_snapshot import snapshot, Is, HasRepr, external, outsource\nfrom vp import *\n")
-        proj = session.Project({"test_a.py": src})
+        # a referenced, persisted external whose outsourced data has changed since (fix writes the new reference and
+        # persists the new data, trim removes the old file - all of it in the first run) + an unreferenced stored file
+        import hashlib
+
+        old_data = f"old data {rng.randint(0, 999)}".encode()
+        stale = f"unreferenced {rng.randint(0, 999)}".encode()
+        oh = hashlib.sha256(old_data).hexdigest()
+        src += f"\n\ndef test_changed_external():\n    assert outsource('new data {rng.randint(0, 999)}') == snapshot(external('{oh[:12]}*.txt'))\n"
+        pfiles = {"test_a.py": src, f".inline-snapshot/external/{oh}.txt": old_data, f".inline-snapshot/external/{hashlib.sha256(stale).hexdigest()}.bin": stale}
+        proj = session.Project(pfiles)
         try:
             fl = ["--inline-snapshot=create,fix,trim,update"]
             r1 = session.run_session(proj, fl)
@@ -131,7 +140,7 @@ def run_shard(args):
         C["real_session_pairs"] = C.get("real_session_pairs", 0) + 1
         out["evaluations"] += 1
         out["signatures"].add("real-session/all-four-twice")
-        wit = {"files": {"test_a.py": src}, "args": fl}
+        wit = {"files": {k: (v.decode() if isinstance(v, bytes) else v) for k, v in pfiles.items()}, "args": fl}
         if any(a["kind"] == "sessionfinish_exception" for a in r1.audit + r2.audit):
             out["violations"].append({"kind": "session-end-raised", "detail": {"events": [a for a in r1.audit + r2.audit if a["kind"] == "sessionfinish_exception"]}, "witness": wit, "finding": None})
             continue
